@@ -42,6 +42,8 @@ var accelShapes = []string{
 	`(a*c?)b\1`, `(\w+,)\1`, `(a+b?)\1c`, `(?<w>\w+ )\k<w>`, `([ab]+c?)d\1`,
 	// several leading literals whose occurrences overlap in the text (the earliest START wins, whichever literal is found first)
 	`cd|bcde`, `(?:cd|bcde)\d`, `bc|abcd`, `(?i)cd|bcde`, `(?:ab|ba)c`, `bcd|abc|cde`, `(?:da|ab|bcd)x`, `(?i:bc|abcd)e`,
+	// literals longer than the Boyer-Moore prefix limit (50 runes): the scan keeps the head (left-to-right) or the tail (right-to-left)
+	`abcdefghijklmnopqrstuvwxyzabcdefghijklmnopqrstuvwxyzabc`, `abcdefghijklmnopqrstuvwxyzabcdefghijklmnopqrstuvwxyz`, `(?i)abcdefghijklmnopqrstuvwxyzabcdefghijklmnopqrstuvwxyzabcdefgh`, `abcdefghijklmnopqrstuvwxyzabcdefghijklmnopqrstuvwx\d`,
 	`abab`, `abca\d`, `abab\w`, `aba`, `abcab`, `(?i)abab`,
 	`[ab]{25}c`, `[ab]{21}cd`, `\w{22}x`, `[a-c]{30}`, `a{25}b`, `[a-z]+(?:@|\d+)[a-z]+(?:\.|,)[a-z]+`, `\w+(?:-|\s+)\w+(?:=|\d)\w+`, `[a-z]+(?:x|[0-9]{2})[a-z]+(?:;|y+)z`,
 	`\bab`, `\Bab`, `a{3}`, `a{2,}b`, `(?:ab){2}`, `(?:ab*){2}`, `(ab*)+c`, `[a-c]{2}d`, `é+a`, `a😀b`,
@@ -158,6 +160,14 @@ func accelInputs(r *Rng, p patCase, n int) [][]rune {
 		lits = []rune{'a'}
 	}
 	al := append([]rune{}, p.alpha...)
+	if !strings.ContainsAny(p.pat, `\.+*?()|[]{}^$#`) {
+		// a plain literal: the text itself, embedded, doubled, and with its first / last rune damaged
+		lit := []rune(p.pat)
+		out = append(out, append([]rune{}, lit...), append(append([]rune{'x', 'x'}, lit...), 'y', 'y'), append(append([]rune{}, lit...), lit...))
+		if len(lit) > 1 {
+			out = append(out, append(append([]rune{}, lit[1:]...), lit...), append(append([]rune{}, lit...), lit[:len(lit)-1]...))
+		}
+	}
 	for i := 0; i < n; i++ {
 		switch r.Intn(4) {
 		case 0:
